@@ -1976,6 +1976,19 @@ func (db *DB) newSyncExecutor(ctx context.Context) (*syncExecutor, error) {
 		return nil, fmt.Errorf("pos: %w", err)
 	}
 
+	// Local LTX state may have been reset while running (ResetLocalState,
+	// auto-recovery). Re-establish the baseline from the replica, as init()
+	// does at startup, so that new files continue above the replica position
+	// instead of being grafted onto the old remote chain.
+	if pos.IsZero() && db.Replica != nil && db.Replica.Client != nil {
+		if err := db.checkDatabaseBehindReplica(ctx); err != nil {
+			return nil, fmt.Errorf("check database behind replica: %w", err)
+		}
+		if pos, err = db.Pos(); err != nil {
+			return nil, fmt.Errorf("pos: %w", err)
+		}
+	}
+
 	return &syncExecutor{
 		state: db.syncState,
 		pos:   pos,
